@@ -87,7 +87,7 @@ def _mark(har):
 
 
 def _drive(run, plan, har):
-    probe = base_bundle(plan, 1)
+    probe = base_bundle(plan, 1000)
     nbits = len(probe) * 8
     if len(probe) <= plan['wsize']:
         positions = list(range(nbits))
@@ -99,7 +99,7 @@ def _drive(run, plan, har):
         flips.append(('burst', pos % max(1, nbits - width), width))
     dec0 = rfc9171.decode_bundle(probe)
     stats = run.stats
-    seqno = 10
+    seqno = 1000
     clean_outs = []
     for (kind, pos, width) in flips:
         seqno += 1
@@ -139,6 +139,10 @@ def _drive(run, plan, har):
         stats['evals'] += 1
         run.keys.append(bc.digest((plan['pri_crc'], plan['pay_crc'], plan['blocks'], plan['pay_len'], plan['route'], kind, pos, width)))
         where = '%s at bit %d (+%d) of %d-octet bundle [%s]' % (kind, pos, width, len(clean), klass)
+        if klass == 'unprotected':
+            # no requirement; such a copy may be accepted under an arbitrary identity and would
+            # contaminate the identities used by later flips
+            continue
         # 1. corrupt copy
         mark = _mark(har)
         har.receive('n1', corrupt)
@@ -194,6 +198,6 @@ def describe(run):
     counters.update({key: val for (key, val) in run.stats.items() if key != 'evals'})
     plan = run.plan
     sample = dict(route=plan['route'], pri_crc=plan['pri_crc'], pay_crc=plan['pay_crc'], blocks=plan['blocks'], pay_len=plan['pay_len'],
-                  clean_hex=base_bundle(plan, 1).hex(), flips=run.stats['evals'])
+                  clean_hex=base_bundle(plan, 1000).hex(), flips=run.stats['evals'])
     return dict(nontrivial=True, keys=run.keys, evals=run.stats['evals'], sim_us=run.wld.now, steps=run.wld.steps, capped=run.wld.capped,
                 counters=counters, sample=sample)
